@@ -1,3 +1,125 @@
-"""symbolic states of the vertex-based classes (filled in below)"""
+"""Symbolic abstract states of the vertex-based classes and their class invariants.
+
+A state is built *from the abstract data* (vertices V, simplices S, faces ...) so that it satisfies the
+class invariant by construction: every cached field holds the spec expression of V and S.  Getters are
+verified starting from such a state; constructors and mutators are verified to produce such a state
+(field by field).  Extents N (vertices), K (simplices), F (faces) never receive values.
+"""
+from __future__ import annotations
+
+import numpy as np
+import sympy as sp
+
+from pyvc import sym
+from pyvc.sym import Sym, to_expr, wrap
+from pyvc.symarr import Dim, SymArr, SymSeq, make, sum_over, gather
+from specs.moments import integrate_tet, X, Y, Z
+
+# one set of extents / array symbols per process: contracts refer to them by name
+N = Dim("N", minimum=4)
+K = Dim("K", minimum=4)
+F = Dim("F", minimum=4)
+LG = Dim("LG", minimum=1)       # simplices per face (ragged; modelled with one extent symbol)
+LF = Dim("LF", minimum=3)       # vertices per face (ragged)
+
+COORD = (X, Y, Z)
+
+
+def V_arr():
+    return make("V", (N, 3))
+
+
+def S_arr():
+    return make("S", (K, 3), integer=True)
+
+
+def row_atoms(V=None, S=None):
+    """the 9 row atoms a,b,c of the generic simplex  (sympy expressions V(S(k,i), j))"""
+    V = V if V is not None else V_arr()
+    S = S if S is not None else S_arr()
+    abc = V[S]
+    A = [to_expr(abc.inner[0, j]) for j in range(3)]
+    B = [to_expr(abc.inner[1, j]) for j in range(3)]
+    C = [to_expr(abc.inner[2, j]) for j in range(3)]
+    return A, B, C
+
+
+def cross(u, v):
+    return [u[1] * v[2] - u[2] * v[1], u[2] * v[0] - u[0] * v[2], u[0] * v[1] - u[1] * v[0]]
+
+
+def dot(u, v):
+    return sum(x * y for x, y in zip(u, v))
+
+
+def raw_normal(A, B, C):
+    return cross([B[i] - A[i] for i in range(3)], [C[i] - A[i] for i in range(3)])
+
+
+def radicand(Nv):
+    return sp.factor_terms(sp.expand(dot(Nv, Nv)))
+
+
+def tet_row(h, A, B, C, shift=None):
+    """row body of the solid integral of h: signed tetrahedron (0; a,b,c) (or apex `shift`, integrand h(r-shift))"""
+    if shift is not None:
+        A = [A[i] - shift[i] for i in range(3)]
+        B = [B[i] - shift[i] for i in range(3)]
+        C = [C[i] - shift[i] for i in range(3)]
+    return integrate_tet(h, A, B, C)
+
+
+def solid_moment(h, shift=None):
+    """M[h] = sum over simplices of the signed tetrahedral integrals (the spec integral over the solid)"""
+    A, B, C = row_atoms()
+    return sum_over(K, tet_row(h, A, B, C, shift))
+
+
+def convex_polyhedron(shapes, centred_fields=True):
+    """symbolic ConvexPolyhedron satisfying Inv_ConvexPolyhedron by construction"""
+    CP = shapes.ConvexPolyhedron
+    o = object.__new__(CP)
+    V, S = V_arr(), S_arr()
+    A, B, C = row_atoms(V, S)
+    Nv = raw_normal(A, B, C)
+    nrm = sp.sqrt(radicand(Nv))
+    o._vertices = V
+    o._ndim = 3
+    o._simplices = S
+    eq = np.empty((4,), dtype=object)
+    for j in range(3):
+        eq[j] = wrap(Nv[j] / nrm)
+    eq[3] = wrap(-dot(Nv, A) / nrm)
+    o._simplex_equations = SymArr((K, 4), eq)
+    m0 = solid_moment(1)
+    o._volume = wrap(m0)
+    o._area = wrap(sum_over(K, nrm / 2))
+    o._centroid = np.array([wrap(solid_moment(COORD[i]) / m0) for i in range(3)], dtype=object)
+    o._faces_are_convex = True
+    # faces: F ragged integer arrays; equations: unit normal of the first three vertices of each face
+    Fc = make("Fc", (F, LF), integer=True)
+    o._faces = SymSeq(F, SymArr((LF,), Fc.inner))
+    p0 = [to_expr(V.inner[j]).subs(N.k, to_expr(Fc.inner[()]).subs(LF.k, i)) for i in range(3) for j in range(3)]
+    P0, P1, P2 = p0[0:3], p0[3:6], p0[6:9]
+    Nf = cross([P2[i] - P1[i] for i in range(3)], [P0[i] - P1[i] for i in range(3)])
+    nf = sp.sqrt(radicand(Nf))
+    feq = np.empty((4,), dtype=object)
+    for j in range(3):
+        feq[j] = wrap(Nf[j] / nf)
+    feq[3] = wrap(-dot(Nf, P0) / nf)
+    o._equations = SymArr((F, 4), feq)
+    G = make("G", (F, LG), integer=True)
+    o._coplanar_simplices = SymSeq(F, SymArr((LG,), G.inner))
+    return o
+
+
+def inv_facts():
+    """facts of the invariant that are not equalities of fields: non-degenerate simplices, outward
+    orientation (positive signed volume)"""
+    A, B, C = row_atoms()
+    Nv = raw_normal(A, B, C)
+    return [sp.Gt(radicand(Nv), 0), sp.Gt(solid_moment(1), 0)] + K.facts() + N.facts()
+
+
 def c08_polytopes(chk, ld):
     pass
